@@ -34,6 +34,12 @@ WKT_LEAF = {
     "google.protobuf.StringValue": wrappers_pb2.StringValue,
 }
 
+# well-known types whose proto3 JSON form is a plain string / primitive (not an object)
+WKT_LEAF_JSON = {"google.protobuf.Timestamp", "google.protobuf.Duration", "google.protobuf.FieldMask",
+                 "google.protobuf.Int32Value", "google.protobuf.UInt32Value", "google.protobuf.StringValue",
+                 "google.protobuf.Int64Value", "google.protobuf.UInt64Value", "google.protobuf.BoolValue",
+                 "google.protobuf.FloatValue", "google.protobuf.DoubleValue", "google.protobuf.BytesValue"}
+
 _WORDS = ["a", "b7", "x-y", "wid get", "é", "q&a=1", "50%", "p/q", "Zed", "long" * 5, "~t.", "k+v"]
 
 
